@@ -141,6 +141,13 @@ Qed.
 
 (* stores that all complete, each followed by reads (the quick store / read sequences on one long-lived
    store object): their judge IS the history judge on the all-Done history, whatever was read before *)
+(* a reading that is no value is rejected after ANY attempt, whatever its fate, when a value was there *)
+Lemma hist_ok_no_value : forall p v f l, hist_ok (RVal p) ((v, f, ROther) :: l) = false.
+Proof. intros p v f l. cbn [hist_ok reading_eqb]. destruct f; reflexivity. Qed.
+
+Lemma hung_rejected : hung_ok = false.
+Proof. exact (hist_ok_no_value 0%N 1%N Died []). Qed.
+
 Lemma reads_ok_is_hist : forall l p,
   reads_ok l = hist_ok p (map (fun x : N * reading => (fst x, Done, snd x)) l).
 Proof.
